@@ -792,3 +792,16 @@ Definition ranked_b (rk : list (str * nat)) (S : spec) : bool :=
 Definition depth_ok (rk : list (str * nat)) (S : spec) (md : N) : bool :=
   forallb (fun p => (4 * N.of_nat (rank_of rk (fst p)) + 4 <=? md)%N) S.
 
+
+(* ------------------------------------------------------------------ structural kind of a schema's own model:
+   "typed with the structural kind the spec gives" for the schema itself (unions are not claimed: members that carry no
+   information are filtered out by the oneOf/anyOf parser) *)
+Definition kind_ok (nd : node) (e : ir) : Prop :=
+  match nd with
+  | Obj _ _ | AllOf _ => i_ty e = Some TyObject
+  | Arr y => struct_of e = TList (ty_of y)
+  | MapN y => struct_of e = TMap (ty_of y)
+  | Prim k => struct_of e = TPrim k
+  | EnumN => struct_of e = TEnum
+  | _ => True
+  end.
